@@ -295,6 +295,24 @@ theorem frun_complete (s : FSt) (ls : List (List Nat)) (x : Nat)
         · refine Or.inr (ih _ ⟨l', hl', hxl'⟩ ?_)
           rw [hseen]; simp [hs, hnew]
 
+/-- A poll cut short by a raising consumer hands over a prefix of what the full poll would have, marks exactly
+that prefix as seen, and therefore loses nothing: the rest is still "new" for the next poll. -/
+theorem fpollFail_spec (s : FSt) (listing : List Nat) (bad : Nat) :
+    let r := fpollFail s listing bad
+    r.2 <+: (fpoll s listing).2 ∧ r.1.seen = s.seen ++ r.2 ∧
+      (∀ x, x ∈ (fpoll s listing).2 → x ∉ r.2 → x ∉ r.1.seen) := by
+  simp only [fpollFail, fpoll]
+  refine ⟨?_, trivial, ?_⟩
+  · split
+    · exact List.take_prefix _ _
+    · exact List.prefix_refl _
+  · intro x hx hnot hseen
+    rcases List.mem_append.mp hseen with h | h
+    · have := (mem_sortDedup x _).mp hx
+      simp at this
+      exact this.2 h
+    · exact hnot h
+
 /-! ### Non-vacuity: concrete runs that meet the hypotheses -/
 
 -- multi-character, self-overlapping delimiter "aa" split across three reads
@@ -306,5 +324,6 @@ example : (run "aa".toList { buffer := [] } ["xa".toList, "a".toList, "yaaa".toL
   decide +kernel
 example : Clean "aa".toList { buffer := [] } := by simp [Clean, cut]
 example : (frun { seen := [] } [[3, 1], [1, 2, 3], [], [0, 2]]).2 = [[1, 3], [2], [], [0]] := by decide
+example : (fpollFail { seen := [] } [3, 1, 2] 2).2 = [1, 2] ∧ (fpoll (fpollFail { seen := [] } [3, 1, 2] 2).1 [3, 1, 2, 4]).2 = [3, 4] := by decide
 
 end StreamzVerif.TextFile
